@@ -146,6 +146,11 @@ def bounded(params):
         evals += 1
         for pb in sr["problems"][:1]:
             failures.append({"input": {"metric": mname_, "case": pb}, "clauses": [str(pb)[:300]], "replay_kind": "c03.scorer"})
+    # the assignment must reach the returned pair unchanged also for sparse, very large labels with reused ids (relabelling stage)
+    from . import c04 as _c04
+    ll = _c04.large_labels({})
+    evals += ll["evaluations"]
+    failures += ll["failures"][: max(0, 5 - len(failures))]
     return {"evaluations": evals, "distinct_nontrivial": len(nontrivial), "failures": failures, "exhaustive": tier != "quick",
             "rule": "1-D uint8 instance-map pairs of length 5, <=3 labels each, canonical up to renaming (quick: 250 seeded pairs; thorough: all) x {IOU,DSC,ASSD} x thresholds x many-to-one; non-trivial = at least one match",
             "bound": "length 5, 3 labels"}
